@@ -559,9 +559,11 @@ func updRoutes() {
 		d := unaryTarget(name)
 		m := &d.Services[0].Methods[0]
 		m.Bindings = nil
-		for j := 0; j <= k%4; j++ {
-			m.Bindings = append(m.Bindings, bridgedesc.Binding{HTTPMethod: "POST", Pattern: fmt.Sprintf("/%s/v%d/{_=*}", name, j), RequestBodyPath: "*"},
-				bridgedesc.Binding{HTTPMethod: "GET", Pattern: fmt.Sprintf("/%s/g%d", name, j)})
+		// consecutive versions have the same NUMBER of routes every other time (in-place refresh of a published slice would
+		// be legal length-wise) but never the same patterns
+		for j := 0; j <= (k/2)%4; j++ {
+			m.Bindings = append(m.Bindings, bridgedesc.Binding{HTTPMethod: "POST", Pattern: fmt.Sprintf("/%s/v%d/{_=*}", name, (j+k)%4), RequestBodyPath: "*"},
+				bridgedesc.Binding{HTTPMethod: "GET", Pattern: fmt.Sprintf("/%s/g%d", name, (j+k)%4)})
 		}
 		return d
 	}
